@@ -64,6 +64,9 @@ pub struct Conn {
     pub srv_read: IoPlan,
     pub srv_write: IoPlan,
     pub cli_read: IoPlan,
+    pub cli_write: IoPlan,
+    /// everything the client ever wrote
+    pub client_tx: Vec<u8>,
     /// live server-side stream objects; 0 after accept means the server dropped the connection
     pub srv_handles: usize,
     pub connected_at: u64,
@@ -473,6 +476,7 @@ pub struct ConnOpts {
     pub srv_read_plan: Vec<u16>,
     pub srv_write_plan: Vec<u16>,
     pub cli_read_plan: Vec<u16>,
+    pub cli_write_plan: Vec<u16>,
     /// server->client window in bytes
     pub s2c_cap: usize,
 }
@@ -482,6 +486,7 @@ impl Default for ConnOpts {
             srv_read_plan: vec![],
             srv_write_plan: vec![],
             cli_read_plan: vec![],
+            cli_write_plan: vec![],
             s2c_cap: 1 << 20,
         }
     }
@@ -489,6 +494,13 @@ impl Default for ConnOpts {
 
 impl Net {
     pub fn connect(&self, o: ConnOpts) -> usize {
+        self.connect_inner(o, true)
+    }
+    /// a connected pair without a listener (scenario K1: the environment plays the server end)
+    pub fn connect_raw(&self, o: ConnOpts) -> usize {
+        self.connect_inner(o, false)
+    }
+    fn connect_inner(&self, o: ConnOpts, listen: bool) -> usize {
         let mut w = self.lock();
         let id = w.conns.len();
         let now = w.now;
@@ -504,10 +516,13 @@ impl Net {
             srv_read: IoPlan::new(o.srv_read_plan),
             srv_write: IoPlan::new(o.srv_write_plan),
             cli_read: IoPlan::new(o.cli_read_plan),
+            cli_write: IoPlan::new(o.cli_write_plan),
             connected_at: now,
             ..Default::default()
         });
-        w.backlog.push_back(id);
+        if listen {
+            w.backlog.push_back(id);
+        }
         w.ev(Ev::Connect { c: id });
         drop(w);
         self.cv.notify_all();
@@ -524,6 +539,7 @@ impl Net {
         c.c2s.buf.extend(b);
         c.c2s.total += b.len() as u64;
         c.client_sent += b.len() as u64;
+        c.client_tx.extend_from_slice(b);
         w.ev(Ev::CliSend { c: id, n: b.len() });
         drop(w);
         self.cv.notify_all();
@@ -598,6 +614,41 @@ impl Net {
         }
         drop(w);
         self.cv.notify_all();
+    }
+    /// environment as server end: take everything the client wrote so far
+    pub fn server_take(&self, id: usize) -> Vec<u8> {
+        let mut w = self.lock();
+        let data: Vec<u8> = w.conns[id].c2s.buf.drain(..).collect();
+        if !data.is_empty() {
+            w.ev(Ev::SrvRead { c: id, n: data.len(), what: "env" });
+        }
+        data
+    }
+    /// environment as server end: deliver reply bytes
+    pub fn server_push(&self, id: usize, b: &[u8]) {
+        let mut w = self.lock();
+        let p = &mut w.conns[id].s2c;
+        if p.wclosed || p.rclosed {
+            return;
+        }
+        p.buf.extend(b);
+        p.total += b.len() as u64;
+        w.ev(Ev::SrvWrite { c: id, n: b.len(), what: "env" });
+        drop(w);
+        self.cv.notify_all();
+    }
+    pub fn server_close(&self, id: usize) {
+        let mut w = self.lock();
+        w.conns[id].s2c.wclosed = true;
+        w.conns[id].c2s.rclosed = true;
+        w.ev(Ev::SrvShutdown { c: id });
+        drop(w);
+        self.cv.notify_all();
+    }
+    /// stamp an application-level event (client operation invoke / return) into the history
+    pub fn stamp(&self, s: String) -> u64 {
+        let mut w = self.lock();
+        w.ev(Ev::Note(s))
     }
     pub fn signal(&self) {
         let mut w = self.lock();
@@ -763,13 +814,22 @@ impl Write for ClientEnd {
         if c.c2s.rclosed || c.c2s.wclosed {
             return Err(io::Error::from(io::ErrorKind::BrokenPipe));
         }
-        c.c2s.buf.extend(b);
-        c.c2s.total += b.len() as u64;
-        c.client_sent += b.len() as u64;
-        w.ev(Ev::CliSend { c: id, n: b.len() });
+        let mut n = b.len();
+        match c.cli_write.next() {
+            Some(0) => {
+                return Err(io::Error::from(io::ErrorKind::Interrupted));
+            }
+            Some(k) if (k as usize) < n => n = k as usize,
+            _ => {}
+        }
+        c.c2s.buf.extend(&b[..n]);
+        c.c2s.total += n as u64;
+        c.client_sent += n as u64;
+        c.client_tx.extend_from_slice(&b[..n]);
+        w.ev(Ev::CliSend { c: id, n });
         drop(w);
         self.net.cv.notify_all();
-        Ok(b.len())
+        Ok(n)
     }
     fn flush(&mut self) -> io::Result<()> {
         Ok(())
